@@ -182,6 +182,10 @@ pub struct WriterCfg {
     pub name_filter: Option<String>,
     #[serde(default)]
     pub tags_filter: Option<String>,
+    /// Worlds C / R: feed the writers with the raw stream of a real simulated run of
+    /// `runner::Basic` (through the whole pipeline) instead of a synthetic history.
+    #[serde(default)]
+    pub real_runner: bool,
 }
 
 #[derive(Clone, Debug, Serialize, Deserialize)]
